@@ -9,3 +9,4 @@ register("eval_losses", ("C15", "C12", "C16", "C20"), "eval_losses.py", quick=["
 register("decoding_dist", ("C10",), "decoding_dist.py", quick=["--tier", "quick"], thorough=["--tier", "thorough"])
 register("sched_episodes", ("C07", "C02", "C03", "C04"), "sched_episodes.py", quick=["--tier", "quick"], thorough=["--tier", "thorough"])
 register("routing_bruteforce", ("C01", "C02", "C03", "C05", "C06"), "routing_bruteforce.py", quick=["--tier", "quick"], thorough=["--tier", "thorough"])
+register("policy_roundtrip", ("C11", "C13", "C14"), "policy_roundtrip.py", quick=["--tier", "quick"], thorough=["--tier", "thorough"])
